@@ -364,8 +364,8 @@ func checkC18(c *Ctx, r *Report) {
 			"(*" + cmT + ").background": "the part outside the goroutine runs from newCertManager on the fresh object; the goroutine's roll is checked below",
 		},
 	})
-	r2.onlyIn("call init", callPred(initK), c.FnsOfPkg(wtPkg), wtPkg+".newCertManager")
-	r2.onlyIn("call background", callPred("(*"+cmT+").background"), c.FnsOfPkg(wtPkg), wtPkg+".newCertManager")
+	r2.onlyCallers("call init", []string{initK}, c.FnsOfPkg(wtPkg), wtPkg+".newCertManager")
+	r2.onlyCallers("call background", []string{"(*"+cmT+").background"}, c.FnsOfPkg(wtPkg), wtPkg+".newCertManager")
 	if f := c.Fn("(*" + cmT + ").background"); f != nil {
 		for _, g := range f.AnonFuncs {
 			lf := computeLockFlow(g, heldSet{})
